@@ -1339,7 +1339,10 @@ class Interp:
                     return o.items[0]
                 if name == 'empty':
                     return const(1, False, int(not o.items))
-                if name in ('push_back', 'emplace_back'):
+                if name == 'emplace_back' and len(args) == 2 and 'pair<' in (tobj or ''):
+                    o.items.append(('pair', self.consume(self.expr(args[0], env), env), self.consume(self.expr(args[1], env), env)))
+                    return None
+                if name in ('push_back', 'emplace_back') and len(args) == 1:
                     o.items.append(self.consume(self.expr(args[0], env), env))
                     return None
                 if name in ('reserve', 'shrink_to_fit'):
